@@ -1679,6 +1679,22 @@ package main
 //@ onlyvia (*Message).AddHeader: ParseMessage
 //@ onlyvia (*Message).RemoveHeader: (*Message).PopVia, (*Message).PopRoute
 
+// ---- frame discipline for the routing state: each table is written only by the functions whose contracts describe the
+// ---- write (field stores through objects the function did not allocate, map updates and deletes, element stores)
+//@ writers ClientTransportMgr.transports (C12): (*ClientTransportMgr).GetTransport, (*ClientTransportMgr).RemoveTransport, (*ClientTransportMgr).cleanExpiredTransport, (*ClientTransportMgr).createClientTransport
+//@ writers FailOverClientTransport.primary (C12 C20): (*FailOverClientTransport).Send, (*FailOverClientTransport).SetPrimary, (*Proxy).handleRawMessage, (*Proxy).receiveAndProcessMessage, (*Proxy).findClientTransport
+//@ writers FailOverClientTransport.secondary (C12 C20): (*FailOverClientTransport).SetSecondary
+//@ writers DialogBasedBackend.backends (C04 C15): (*DialogBasedBackend).GetBackend, (*DialogBasedBackend).AddBackend, (*DialogBasedBackend).RemoveDialog, (*DialogBasedBackend).cleanExpiredDialog
+//@ writers ExpireBackend.expire (C04 C15):
+//@ writers ExpireBackend.backend (C04 C15):
+//@ writers RoundRobinBackend.backends (C05 C19): (*RoundRobinBackend).AddBackend, (*RoundRobinBackend).RemoveBackend
+//@ writers RoundRobinBackend.backendMap (C05 C19): (*RoundRobinBackend).AddBackend, (*RoundRobinBackend).RemoveBackend
+//@ writers RoundRobinBackend.index (C05): (*RoundRobinBackend).getNextBackendIndex
+//@ writers PreConfigRoute.items (C18 C03): (*PreConfigRoute).AddRouteItem
+//@ writers AddressWithCallback.addrs (C19): (*DynamicHostResolver).addressResolved
+//@ writers AddressWithCallback.failed (C19): (*DynamicHostResolver).addressResolved
+//@ writers Proxy.backends (C03 C04): (*Proxy).receiveAndProcessMessage
+
 //@ func (*Message).Write
 //@   props C01
 //@   uses kvtext addrtext msgtext
